@@ -112,6 +112,7 @@ type Enc struct {
 	usedGhost    map[string]bool
 	axioms       []string
 	axiomNames   []string
+	preludeText  string
 }
 
 func (e *Enc) touch(h Heap) {
@@ -483,8 +484,12 @@ func (e *Enc) run() (err error) {
 	// parameters and free variables
 	e.curBlock = nil
 	e.emit(fmt.Sprintf("(assert (>= %s %d))", e.entry.get(allocHeap), e.ctx.nGlobals()+1))
-	for _, p := range fn.Params {
-		t := e.declare("p$"+p.Name(), e.sorts().SortOf(p.Type()))
+	for pi, p := range fn.Params {
+		pname := p.Name()
+		if pname == "_" || pname == "" {
+			pname = fmt.Sprintf("_%d", pi)
+		}
+		t := e.declare("p$"+pname, e.sorts().SortOf(p.Type()))
 		e.vals[p] = t
 		e.typeFactsAt(t, p.Type(), e.entry)
 		e.params[p.Name()] = TV{Term: t, Sort: e.sorts().SortOf(p.Type()), T: p.Type()}
